@@ -279,7 +279,7 @@ pub fn check(r: &RunResult, rep: &mut Report) {
 				Some(e) => e,
 				None => continue,
 			};
-			let (_, want_contacts, _, _) = match cfg_at(a.begin.seq) {
+			let (_, want_contacts, _, want_key_type) = match cfg_at(a.begin.seq) {
 				Some(c) => c,
 				None => continue,
 			};
@@ -386,6 +386,13 @@ pub fn check(r: &RunResult, rep: &mut Report) {
 			let mut diffs = vec![];
 			if ca_thumb != snap.thumb {
 				diffs.push("key");
+			}
+			// the key in use is of the configured type (an edit of the key type that generates no new
+			// key leaves both sides in agreement with each other, and both out of line with the configuration)
+			if let Some(kt) = &want_key_type {
+				if &snap.current_type != kt {
+					diffs.push("key_type_not_the_configured_one");
+				}
 			}
 			if ca_contacts != want_contacts {
 				// did this attempt "create" an account the CA already had (200, body = the account as
